@@ -830,7 +830,9 @@ class Constant(Expression):
             self.value = index(value)
             self.fixed = False
         except TypeError:
-            self.value = float(value) * Expression.FIXED_BASE
+            # the float product may be just off the exact decimal:
+            # 0.29 * 100000 is 28999.999999999996
+            self.value = round(float(value) * Expression.FIXED_BASE)
             self.fixed = True
         self.ebpf = ebpf
         self.signed = value < 0
